@@ -614,6 +614,24 @@ QUICK_SCENARIO2 = {
 }
 
 
+# the identity configured on the command line / through GUNICORN_CMD_ARGS instead of the configuration file: every generation -
+# also the one of a re-executed master, which is started from sys.argv and the ORIGINAL environment - must see it
+QUICK_SCENARIO3 = {
+    "conf": {"user": ["str", "nobody"], "group": ["str", "nogroup"], "ig": True, "umask": 0o22, "workers": 2,
+             "worker_class": "sync", "timeout": 2, "via": "env"},
+    "fake": False, "mgroups": [0, 4],
+    "events": [["kill", 0], ["usr2", 0], ["kill", 3], ["hup", 1, None], ["ttin", 1]],
+}
+
+
+QUICK_SCENARIO4 = {
+    "conf": {"user": ["str", "daemon"], "group": ["int", 65534], "ig": False, "umask": 0, "workers": 1,
+             "worker_class": "gthread", "timeout": 2, "via": "cli"},
+    "fake": False, "mgroups": [],
+    "events": [["hup", 0, None], ["usr2", 0], ["kill", 2], ["term", 0], ["kill", 0]],
+}
+
+
 def thorough_scenarios(rng, env, rounds=1):
     out = []
     for _ in range(rounds):
@@ -635,6 +653,9 @@ def thorough_scenarios1(rng, env):
     for i, c in enumerate(confs):
         conf = dict(c)
         conf.update({"umask": rng.choice([0, 0o22, 0o77]), "workers": rng.choice([1, 2, 3]), "worker_class": classes[i], "timeout": 2})
+        via = rng.choice(["file", "file", "cli", "env"])
+        if via != "file":
+            conf["via"] = via
         evs = []
         usr2_done = False
         for _ in range(rng.randint(4, 7)):
@@ -645,7 +666,8 @@ def thorough_scenarios1(rng, env):
                 alt = rng.choice(confs[:4])
                 # always the oldest live master: a HUP to a re-executed master whose parent is still alive makes it
                 # exit (reload() -> Pidfile.create finds the parent's pid file: RuntimeError) - not a C20 matter
-                evs.append(["hup", 0, rng.choice([None, {"user": alt["user"], "group": alt["group"], "ig": alt["ig"]}])])
+                # (an identity given on the command line / in the environment is not changed by editing the file)
+                evs.append(["hup", 0, rng.choice([None, {"user": alt["user"], "group": alt["group"], "ig": alt["ig"]}]) if via == "file" else None])
             elif x < 0.65 and not usr2_done:
                 evs.append(["usr2", 0])
                 usr2_done = True
@@ -772,7 +794,8 @@ def run(ctx):
             ctx.sample(describe(c))
         report_fails(ctx, fails)
         # level 4
-        scens = [QUICK_SCENARIO, QUICK_SCENARIO2] if quick else [QUICK_SCENARIO, QUICK_SCENARIO2] + thorough_scenarios(ctx.rng, env, 4)
+        base = [QUICK_SCENARIO, QUICK_SCENARIO2, QUICK_SCENARIO3, QUICK_SCENARIO4]
+        scens = base if quick else base + thorough_scenarios(ctx.rng, env, 4)
         hist_cases = []
         for scen in scens:
             t = time.time()
@@ -802,7 +825,7 @@ def run(ctx):
                            "are not plain root, seeded random]; (2) real worker objects of every installed worker class through "
                            "Worker.init_process with a recording application loader; (3) real UnixSocket bind + drop + connect per "
                            "umask; (4) a real server as root through worker kill / HUP (changed user) / USR2 / TTIN / TERM, one "
-                           "snapshot per event. non-trivial = anything but the all-defaults identity cell; distinct by cell description")
+                           "snapshot per event, the identity configured in the file, on the command line or through GUNICORN_CMD_ARGS. non-trivial = anything but the all-defaults identity cell; distinct by cell description")
         # step 3: model vs implementation
         bad = ctx.correspond("cells", header(env), cases, shard=120)
         bad2 = ctx.correspond("server", header(env), hist_cases, shard=4) if hist_cases else []
